@@ -2,15 +2,18 @@
 from lib import *  # noqa
 import ownrules
 import C15
+import termrules
 
 TECHNIQUE = ("guard dominance for every raw byte access inside the one module that can see message bytes (ares_buf.c), monotone-pointer rule for "
              "compression jumps, RDLENGTH reconciliation gates, who-may-index census for the legacy decoders, heap-ownership typestate and "
-             "destination-size checks over all decoding entry points")
+             "destination-size checks over all decoding entry points, release-before-replace of owned record fields, terminator-slot arithmetic "
+             "(induction-variable relation / counting-helper agreement / growth guard) for the NULL-terminated arrays handed out")
 LEVEL_TEXT = ("static: decides on every path (a) each read through a raw (pointer,length) view of message bytes is dominated by a comparison of the "
               "index/length actually used against the length of that view, (b) a compression pointer is followed only to an offset strictly below the "
               "lowest label start recorded before any byte of the current label was consumed, so jumps strictly decrease, (c) RDATA parsing is entered "
               "only with RDLENGTH <= remaining bytes and success requires processed <= RDLENGTH, (d) legacy decoders never index the caller's buffer "
-              "themselves, (e) no parser path leaks, double-frees or uses released memory, (f) fixed-size destinations are written with their own size. "
+              "themselves, (e) no parser path leaks, double-frees or uses released memory, (f) fixed-size destinations are written with their own size, (g) a record setter releases the value it replaces, (h) NULL-terminated "
+              "hostent arrays keep a slot for the terminator. "
               "Does not decide absence of all other undefined behaviour nor termination of loops other than pointer chasing.")
 LEVEL_NOTE = "trusts clang CFG + extractor; struct ares_buf is opaque outside ares_buf.c (checked: R-C02-OPAQUE), so only that file can touch message bytes directly"
 DESIGN_REF = "DESIGN.md §6/C02"
@@ -495,6 +498,7 @@ def run(prog, R, tier):
     r_ptr(prog, R)
     r_rdlen(prog, R)
     r_replace(prog, R)
+    termrules.term_rule(prog, R, "R-C02-TERM", floor=4)
     files = PARSER_FILES | {f.file for f in prog.funcs.values() if f.file.startswith("src/lib/legacy/")}
     ownrules.own_rule(prog, R, "R-C02-OWN", files, floor=30, include_contract=True)
     C15.r_dst(prog, R, files, rid="R-C02-DST", floor=5)
